@@ -406,6 +406,18 @@ func (fc *FnCtx) addrOf(st *State, x ast.Expr) Val {
 			for i := 0; i < su.NumFields(); i++ {
 				fc.writeFieldPtr(st, p, i, vals[i])
 			}
+			// ghost fields of a freshly allocated struct start at their zero value
+			if n := namedOf(t); n != nil {
+				for _, g := range fc.eng.ghosts {
+					if fc.eng.ghostField(t, g.Name) != g {
+						continue
+					}
+					gt := fc.eng.resolveGhostType(g)
+					key := "F$" + structKeyName(types.NewPointer(t)) + ".ghost_" + g.Name
+					srt := "(Array Int " + fc.smt.sortOf(gt) + ")"
+					fc.setComp(st, key, srt, sto(fc.comp(st, key, srt), p.T, fc.smt.zero(gt)))
+				}
+			}
 			fc.assumeDynType(st, p)
 			return p
 		}
@@ -885,7 +897,7 @@ func (fc *FnCtx) chanRecv(st *State, ch Val, e ast.Expr) (Val, Val) {
 	ok := Val{fc.smt.fresh("recvok", "Bool"), types.Typ[types.Bool]}
 	// closed channel yields the zero value
 	st.assume(imp(not(ok.T), eq(v.T, fc.smt.zero(ct.Elem()))))
-	if inv := fc.eng.chanInvFor(fc, ct.Elem()); inv != nil {
+	for _, inv := range fc.eng.chanInvsFor(ct.Elem()) {
 		env := fc.specEnvFor(st, inv.Pkg)
 		env.scope[inv.Var] = v
 		c := fc.specEval(env, inv.Inv.E)
